@@ -84,6 +84,43 @@ def run(res, tier, seed):
                 report(c, "padding: " + b, [(tag0, outs0.get(c.id))])
                 break
     sweep(cases, base, "plain")
+    # the value-only model: the result must not depend on what a supplied destination held before (the junk the
+    # generator pre-fills it with) nor on anything but the operands' values
+    mout = corr.run_model(cases)
+    for c, why, co, mo in corr.compare(cases, base, mout):
+        e = engine.match_known("C10", c, {"why": why, "fate": co[0] if co else "MISSING", "windowed": any(l.startswith("win ") for l in c.lines)})
+        if e is not None:
+            res.known_finding("%s: %s" % (e.get("id"), e.get("what")))
+            continue
+        report(c, "value-dependence: output differs from the value-only model (%s)" % why, [("plain", co), ("model", mo)])
+    # blocks above the block-cache threshold take a different allocation path (never cached, zeroed by the calloc
+    # wrapper): small-cache build (threshold 64 KiB) with a poisoned heap and results larger than that
+    big_ops = [o for o in ("add", "copy", "transpose", "concat", "stack", "submatrix", "mul_naive", "mul_m4rm", "mul", "set_ui") if o in ops.CATALOG]
+    gb = gen.G(seed + 9)
+    big = []
+    for name in big_ops:
+        tries = 0
+        while sum(1 for c in big if c.meta["op"] == name) < (2 if tier == "quick" else 8) and tries < 60:
+            tries += 1
+            c = ops.build(name, gb, None, 1500)
+            sh = sorted(c.meta.get("shape", (1,)))
+            if sh[-1] * (sh[-2] if len(sh) > 1 else 1) >= 700000:
+                big.append(c)
+    if big:
+        small = corr.Runner(vlib.variant(name="small", **vlib.SMALL), wrap=True)
+        b0 = small.run_c(big)
+        b1 = small.run_c(big, env={"VERIF_POISON": "987654321"})
+        bm = corr.run_model(big)
+        sweep(big, b0, "small/plain"); sweep(big, b1, "small/heap")
+        for c in big:
+            res.count(("big", c.meta.get("op"), tuple(s // 64 for s in c.meta.get("shape", ()))))
+            a, b = b0.get(c.id), b1.get(c.id)
+            if a is None or b is None or a[0] != b[0] or a[1] != b[1]:
+                report(c, "heap-dependence above the cache threshold (small-cache build): output differs between plain and poisoned heap",
+                       [("plain", a), ("heap", b)])
+        for c, why, co, mo in corr.compare(big, b1, bm):
+            report(c, "value-dependence above the cache threshold (small-cache build, poisoned heap): %s" % why, [("heap", co), ("model", mo)])
+        res.cov["cases_big"] = len(big)
     for k, pat in enumerate(pats):
         out = runner.run_c(cases, env={"VERIF_POISON": pat})
         sweep(cases, out, "heap=" + pat)
